@@ -640,7 +640,7 @@ func init() {
 				return err
 			}
 		}
-		if err := w.App.BankKeeper.SendCoins(w.Ctx(), w.Actors[ev.Actor].Addr, to, sdk.NewCoins(c)); err != nil {
+		if err := w.App.BankKeeper.SendCoins(w.WCtx(), w.Actors[ev.Actor].Addr, to, sdk.NewCoins(c)); err != nil {
 			return err
 		}
 		w.AddUnsolicited(to, c)
